@@ -577,6 +577,12 @@ def run(ctx):
         jid = order[0]
         samples.append({"case": jid, "outcome": res[jid]["outcome"]})
     distinct = {(by_cid[j.split("|")[0]]["cid"]) for j in order if by_cid[j.split("|")[0]]["class"] != "as-is"}
+    # ---- growth item 7: the template package on TLC's template-set histories (Templates.tla); a crash or a hang while
+    # rendering user-supplied override templates is C04's business, resolution mismatches are printed as observations
+    from checks import templates_part
+    tp = templates_part.run_part(ctx)
+    for sig, what, rp_, key in tp["fails"]:
+        ctx.fail(sig, what, rp_, key)
     cov = {
         "evaluations": len(order),
         "distinct_nontrivial": len(distinct),
@@ -598,6 +604,9 @@ def run(ctx):
         "binding_selftest": binding, "samples": samples,
         "checker_cmd": "tlc MalformedMC; worker c04-run (subprocess, recover, watchdog); tlc MalformedTrace",
     }
+    cov.update(tp["coverage"])
+    cov["states"] = sum(x["distinct"] for x in ctx.tlc_runs)
+    cov["transitions"] = sum(x["generated"] for x in ctx.tlc_runs)
     return ctx.finish("exploration", cov, ASSUMPTIONS)
 
 
@@ -639,6 +648,13 @@ def selftest(ctx, res, order, by_cid):
 def replay(ctx, uni):
     rp = json.load(open(ctx.replay))
     r = rp["replay"]
+    if isinstance(r, dict) and r.get("part") == "templates":
+        from checks import templates_part
+        for sig, what, rp_, key in templates_part.replay_part(ctx, r):
+            if sig == rp["signature"]:
+                ctx.fail(sig, what, rp_, key)
+        return ctx.finish("exploration", {"evaluations": 1, "distinct_nontrivial": 0, "rule": "replay of one recorded template set",
+                                          "samples": [{"replayed": rp["signature"]}]}, ASSUMPTIONS)
     d = os.path.join(uni.dir, "replay")
     os.makedirs(d)
     # the replay file carries the exact files of the case and the pipeline YAML; paths are re-rooted
